@@ -5,7 +5,9 @@ RULE = ("the real Server.Invoke / ClientConn.Invoke and their handleMessageRespo
         "(duplicate) responses - are forced by turn-based gate scripts (quick: sampled; thorough: all up to 400 for duplicates), the corpus schedule "
         "that deadlocked the unbuffered channel runs first; the gate passages taken are replayed through Rendezvous (every step enabled, final "
         "program counter of the caller agrees); after every interleaving the caller must have returned, an administrative call must return, and "
-        "no pending record may remain")
+        "no pending record may remain; write path: on both transports a Write waiting for a write pump which is stalled in the socket must end with "
+        "its deadline / cancellation (fake conn whose WriteMessage parks), and over real sockets 36 client calls of 1 MiB with 300 ms deadlines "
+        "against a peer that never reads must each return by their deadline")
 ASSUMPTIONS = ["Server.mu is modelled as an exclusive lock (read-locked regions are straight-line); wall-clock 'small bounded time' is observed as 2.5 s / 1.5 s limits"]
 FILES = ["root/fake_test.go", "root/c16_test.go", "root/c07_test.go", "root/peers_test.go", "root/c18_test.go", "root/c13_test.go", "root/c02_test.go"]
 RW = {"server.go": [(r"\btransport\.NewServerTransport\(", "vNewServerTransport(")],
@@ -42,8 +44,18 @@ def run(ctx):
     if rc != 0 or not recs:
         ctx.fail("harness:C02", "the C02 harness did not run to completion on this tree: " + out[-1500:], kind="correspondence", no_input=True)
         return
-    for r in recs:
+    # transport level: a Write waiting for a stalled write pump ends with its context (both transports)
+    rc3, out3, recs3 = ctx.go("internal/transport", "^TestVerifC02Transport$", ["transport/gc_c02_test.go"], "transport", timeout=240)
+    ctx.records += recs3
+    if rc3 != 0 or not recs3:
+        ctx.fail("harness:C02-transport", "the C02 transport harness did not run to completion on this tree: " + out3[-1500:], kind="correspondence", no_input=True)
+    # the unidirectional client: a call under a deadline ends with it, also on a connection obtained by reconnecting inside the call
+    rc4, out4, recs4 = ctx.go("", "^TestVerifC02Uni$", ["root/ga_uni_test.go"], "wsrpc", timeout=240)
+    ctx.records += recs4
+    if rc4 != 0 or not recs4:
+        ctx.fail("harness:C02-uni", "the C02 uni-client harness did not run to completion on this tree: " + out4[-1500:], kind="correspondence", no_input=True)
+    for r in recs + recs3 + recs4:
         if r.get("fail"):
-            ctx.fail(r["fail"], "call monitor '%s' failed: %s" % (r["fail"], str(r.get("info"))[:600]), case=r)
+            ctx.fail(r["fail"].split("/")[0], "call monitor '%s' failed: %s" % (r["fail"], str(r.get("info"))[:600]), case=r)
     hdr = "From Coq Require Import List NArith ZArith String.\nImport ListNotations.\nOpen Scope nat_scope.\nModule C := WV.Model.RendezvousC."
     ctx.model("Run.RunC02", recs, header=hdr)
